@@ -42,7 +42,11 @@ Walk(f, node, c) == \* node: current failNode or "nil" (modelled as <<-1>>)
     ELSE IF Append(node, c) \in Nodes THEN Append(node, c)
     ELSE Walk(f, IF node = Root THEN <<-1>> ELSE f[node], c)
 
-Init == /\ pats \in {P \in SUBSET (SeqsUpTo(Alphabet, MaxPatLen) \ {<<>>}) : P # {} /\ Cardinality(P) <= MaxPats}
+\* (pattern sets of up to three patterns, written out: filtering SUBSET of 39 strings would enumerate 2^39 sets)
+Pool == SeqsUpTo(Alphabet, MaxPatLen) \ {<<>>}
+PatSets == {{a} : a \in Pool} \cup (IF MaxPats >= 2 THEN {{a, b} : a \in Pool, b \in Pool} ELSE {})
+           \cup (IF MaxPats >= 3 THEN {{a, b, c} : a \in Pool, b \in Pool, c \in Pool} ELSE {})
+Init == /\ pats \in PatSets
         /\ fail = [n \in Children(Root) |-> Root]
         /\ queue = Sorted(Children(Root))
         /\ done = {} /\ pc = "bfs"
